@@ -37,6 +37,7 @@ type Program struct {
 	ghostCache   map[*ssa.Function]*ghostSet
 	libCache     map[string]*ssa.Function
 	funcValues   map[string][]*ssa.Function
+	localPinList []string // pins.json "_locals": locals named in loop invariants (see renamedLocal)
 }
 
 var repoModulePrefixes = []string{"github.com/formancehq/ledger", "github.com/formancehq/stack/libs/go-libs"}
